@@ -6,11 +6,24 @@ THEOREMS = ["Props.C14." + t for t in [
     "queries_match_paths", "order_independent", "error_iff", "json_roundtrip",
     "no_panic_partial", "no_panic_repaired", "getpath_terminates_partial"]]
 
+DOCUMENTED = {
+    "panic:head-negative-index", "panic:atoi-overflow", "panic:int32-overflow", "panic:err-token", "panic:str-slice-oob",
+    "panic:getpath-star-nil-field", "panic:field-nil-fdmask", "panic:foreach-nil-fdmask", "panic:foreach-invalid-type",
+    "hang:getpath-backslash-under-all", "sel:black-terminal-star", "pim:black-terminal-star", "pim:typedef-not-unwrapped",
+    "pim:struct-star-takes-first-field-type", "json:star-key-becomes-wildcard", "json:quote-not-json", "json:empty-mask-rejected",
+}
+
 PARTIAL = [
-    "no_panic (full statement false on the tree as found: 9 panic sites + 1 non-terminating loop; proved as no_panic_partial "
-    "under decidable hypotheses and as no_panic_repaired for the `Sites.repaired` configuration; negative witnesses decided in Props/C14.lean)",
-    "queries_match_paths (black-list masks additionally need NoTerminalStar: a final '*' does not reject; witness decided)",
-    "json_roundtrip (string key \"*\" is read back as the wildcard; keys whose strconv.Quote form is not JSON are outside the tree model)",
+    "no_panic: the full statement is false on the tree as found (9 panic sites; witnesses decided in Props/C14.lean and replayed by "
+    "seeded cases); proved as no_panic_partial (decidable hypotheses idsNonneg / tokSafe / no negative query id / no negative JSON id, "
+    "for every Sites configuration) and as no_panic_repaired (every proposed repair applied: no panic at all)",
+    "queries_match_paths: black-list masks need NoTerminalStar (a final '*' does not reject anything; witness decided); paths must be in "
+    "the regular fragment accepted by `shadow` ([,] / [1,*] / re-typing '$' / union-typed fields excluded) and struct field ids unique",
+    "error_iff: only 'regular and conflict-free => accepted' (and its contrapositive); 'conflict => rejected' is false on the code "
+    "(order dependent; witness decided)",
+    "json_roundtrip: needs JsonSafe (no string key \"*\", ids in range) and a non-empty path set; keys whose strconv.Quote form is not "
+    "JSON are outside the tree model (oracle finding json:quote-not-json); text stability is an oracle check, not a theorem",
+    "getpath_terminates_partial: GetPath loops forever on a bare backslash under an 'all' node; proved under progressB (decidable)",
 ]
 
 
@@ -60,7 +73,10 @@ def run(ctx):
         st = json.load(open(os.path.join(ctx.work, "stats.json")))
         ctx.cov.update(evaluations=st["evaluations"], distinct_nontrivial=st["distinct_nontrivial"], samples=st["samples"],
                        distribution=st["distribution"], exhaustive=False)
-        for f in (st.get("oracle_failures") or []):
+        # findings already described in docs/C14.md go last, so that a NEW failing input always gets one of the
+        # (at most 8) replay files
+        fails = sorted(st.get("oracle_failures") or [], key=lambda f: f["key"] in DOCUMENTED)
+        for f in fails:
             ctx.add_violation(f["key"], f["what"], f["input"], f["expected"], f["observed"])
         if drv:
             model = ctx.run_model("tv_c14", os.path.join(ctx.work, "ops.txt"))
